@@ -341,6 +341,32 @@ func applyDocEdit(doc *JV, op Op) bool {
 			}
 		}
 		return n > 0
+	case "owncountry":
+		// a combo that names a country: the document's own (redundant, the
+		// calculation drops it) or, every third time, the customer's
+		if l := pick(); l != nil {
+			ts := l.Get("taxes")
+			if ts == nil || ts.K != 'a' || len(ts.A) == 0 || ts.A[0].K != 'o' {
+				return false
+			}
+			who := "supplier"
+			if op.I%3 == 2 {
+				who = "customer"
+			}
+			pty := doc.Get(who)
+			if pty == nil || pty.Get("tax_id") == nil {
+				return false
+			}
+			c := pty.Get("tax_id").Get("country").Str()
+			if c == "" || ts.A[0].Get("country").Str() == c {
+				return false
+			}
+			ts.A[0].Set("country", JStr(c))
+			if op.I%2 == 1 {
+				ts.A[0].Del("ext")
+			}
+			return true
+		}
 	case "codeweird":
 		// unusual but legal spellings that normalisers must bring to a stable form in ONE pass
 		k := []string{"code", "series"}[int(op.I)%2]
@@ -531,7 +557,7 @@ func applyDocEdit(doc *JV, op Op) bool {
 	return false
 }
 
-var editKinds = []string{"qty", "price", "rmline", "dupline", "note", "rounding", "custname", "code", "breakdown", "linedisc", "linecharge", "docdisc", "advances", "codeweird", "addrweird", "taxidweird", "amountprec", "mixrates", "mixrates", "rmdefaulted", "sloppy", "sloppy", "sloppy", "inboxweird", "scenario", "scenario", "fx", "valuedate", "transplant", "transplant", "docfixed", "paykeys", "graft", "graft", "extcode", "extcode", "addcat", "duedates"}
+var editKinds = []string{"qty", "price", "rmline", "dupline", "note", "rounding", "custname", "code", "breakdown", "linedisc", "linecharge", "docdisc", "advances", "codeweird", "addrweird", "taxidweird", "amountprec", "mixrates", "mixrates", "rmdefaulted", "sloppy", "sloppy", "sloppy", "inboxweird", "scenario", "scenario", "fx", "valuedate", "transplant", "transplant", "docfixed", "paykeys", "graft", "graft", "extcode", "extcode", "addcat", "duedates", "owncountry"}
 
 func genEdit(r *rand.Rand, id int) Op {
 	k := Pick(r, editKinds)
